@@ -61,6 +61,11 @@ def wrapper_cases(tier, seed):
             out.append(("w%d" % len(out), b, "bsolve %d %s %d %s %s" % (b, v, n + 2, fmt_crs(n, n, rows), fmt_vec(f)), "full", n, rows, f))
             if v != "direct":
                 out.append(("w%d" % len(out), b, "bsolve %d %s %d %s %s" % (b, v, r.choice([1, 2, 3]), fmt_crs(n, n, rows), fmt_vec(f)), "trunc", n, rows, f))
+            if v == "direct":
+                # a NON-symmetric, diagonally dominant system (non-symmetric diagonal blocks, non-symmetric pivots of the block skyline LU):
+                # the block inverse must be the inverse, not its transpose (seeded C13-7)
+                ns = gen.nonsym_dd(r, n, density=r.choice([0.4, 0.7, 1.0]))
+                out.append(("w%d" % len(out), b, "bsolve %d %s %d %s %s" % (b, v, n + 2, fmt_crs(n, n, ns), fmt_vec(f)), "full", n, ns, f))
             if v == "mbs_bv":
                 # right-hand side supported in the trailing part of the vector only (a norm taken over a truncated view would be zero)
                 ft = [F(0)] * (n - b) + [F(k + 1) for k in range(b)]
